@@ -69,19 +69,20 @@ def flat_args(data, base):
     return out
 
 
-def raw_json(stream):
+def raw_json(stream, readings=None):
     from proj import NO_TS, rat
 
     out = []
-    for ts, o, h, l, c, v in stream:
+    for pos, (ts, o, h, l, c, v) in enumerate(stream):
         x = 1
         d = {}
         for k, val_ in (("o", o), ("h", h), ("l", l), ("c", c), ("v", v)):
             r, e = rat(val_)
             d[k] = r
             x &= e
+        rd = readings[pos] if readings else {}
         d.update({"x": x, "ts": NO_TS if ts is None else ts, "tag": "", "cl": [],
-                  "ik": [], "iv": [], "sk": [], "sv": []})
+                  "ik": list(rd.keys()), "iv": [val(v_) for v_ in rd.values()], "sk": [], "sv": []})
         out.append(d)
     return out
 
@@ -115,7 +116,13 @@ class Session:
         sc = self.sc
         cands = mk_candles(sc["stream"], self.base, 1, k, "candle")
         self.cfgs = list(sc["inds"]) + list(sc.get("late", []))
-        if sc["obj"] == "ind":
+        if sc["obj"] == "list":
+            # a bare list of candles carrying the given readings (analysis functions)
+            for cnd, rd in zip(cands, sc["readings"][:k]):
+                cnd.indicators = dict(rd)
+            self.obj = cands
+            self.live, self.active = {}, []
+        elif sc["obj"] == "ind":
             self.obj = sc["inds"][0].build(candles=cands)
             self.live = {0: self.obj.name}
             self.active = [0]
@@ -140,12 +147,16 @@ class Session:
 
     def managers(self):
         """[(name, candle list)] of the managers that exist, default first"""
+        if self.sc["obj"] == "list":
+            return [("default", self.obj)]
         if self.sc["obj"] == "ind":
             return [("default", self.obj.candle_manager.candles)]
         return list(self.obj.get_candles().items())
 
     def observed(self):
         o = self.obj
+        if self.sc["obj"] == "list":
+            return {"at": [], "ai": 0}
         ai = getattr(o, "_active_index", 0) if self.sc["obj"] == "ind" else 0
         return {"at": sorted(vars(o).keys()), "ai": int(ai)}
 
@@ -205,6 +216,10 @@ class Session:
     # -- read-only calls ---------------------------------------------------
     def do_read(self, r):
         """r = (what, indicator number or -1, name or '', index or NOIDX)"""
+        if r[0] == "an":
+            return self.do_analysis(r)
+        if r[0] == "geo":
+            return self.do_geometry(r)
         what, ino, name, idx = r
         hexobj = self.sc["obj"] == "hex"
         ind = self.indicator(ino) if ino >= 0 else None
@@ -266,6 +281,57 @@ class Session:
             rv = val(res)
         ai = int(getattr(ind, "_active_index", 0)) if ind is not None else 0
         return {"w": what, "j": j, "n": ref(nm), "i": idx, "r": rv, "ai": ai}
+
+    def do_analysis(self, r):
+        """r = ("an", fn, a, b, length or None, index, variant)"""
+        from hexital.analysis import MOVEMENT_MAP, PATTERN_MAP, movement
+
+        _, fn, a, b, length, idx, var = r
+        f = {**MOVEMENT_MAP, **PATTERN_MAP, "above": movement.above, "below": movement.below}[fn]
+        cs = self.managers()[0][1]
+        n = len(cs)
+        kw = {}
+        if fn in PATTERN_MAP:
+            if length:
+                kw["lookback"] = length
+        elif fn in ("positive", "negative"):
+            pass
+        elif fn in ("above", "below"):
+            kw.update(indicator=a, indicator_two=b)
+        elif fn in ("cross", "crossover", "crossunder"):
+            kw.update(indicator_one=a, indicator_two=b)
+            if length is not None:
+                kw["length"] = length
+        else:
+            kw["indicator"] = a
+            if length is not None:
+                kw["length"] = length
+        DEFLEN = {"rising": 1, "falling": 1, "cross": 1, "crossover": 1, "crossunder": 1}
+        eff = length if length is not None else DEFLEN.get(fn, 4)
+        if fn in PATTERN_MAP:
+            eff = length or 0
+        try:
+            if var == "at":
+                res = f(cs, index=idx, **kw)
+            elif var == "neg":
+                res = f(cs, index=idx - n, **kw)
+            elif var == "trunc":
+                res = f(list(cs[:idx + 1]), **kw)
+            else:  # default position on the whole list
+                res = f(cs, **kw)
+            rv = val(res)
+        except Exception as e:      # one raising call must not hide the others
+            rv = {"t": "o", "h": "raised " + type(e).__name__}
+        return {"w": "an", "j": 1, "fn": fn, "a": ref(a or ""), "b": ref(b or ""), "len": eff,
+                "i": idx if var != "neg" else idx - n, "var": var, "n": ref(fn), "r": rv, "ai": 0}
+
+    def do_geometry(self, r):
+        """r = ("geo", index): the candle's own shape properties"""
+        cs = self.managers()[0][1]
+        c = cs[r[1]]
+        d = {"body": c.realbody, "upper": c.shadow_upper, "lower": c.shadow_lower, "range": c.high_low,
+             "pos": c.positive, "neg": c.negative}
+        return {"w": "geo", "j": 1, "n": ref("geometry"), "i": r[1], "r": val(d), "ai": 0}
 
     def manager_index_of(self, ino):
         if self.sc["obj"] == "ind":
@@ -448,7 +514,9 @@ def record(sc):
     # manager and indicator descriptors
     mg = []
     inds = []
-    if sc["obj"] == "ind":
+    if sc["obj"] == "list":
+        mg.append(mgr_cfg("default", None, False, None, None))
+    elif sc["obj"] == "ind":
         c = sc["inds"][0]
         mg.append(mgr_cfg("default", c.timeframe, c.fill, c.lifespan, c.ctype))
         inds.append(dict(c.spec(ses.live.get(0, "")), act=1))
@@ -464,4 +532,4 @@ def record(sc):
             c.mg = c.mg_index(mg_names)
             inds.append(dict(c.spec(ses.live.get(i, "")), act=1 if i < len(sc["inds"]) else 0))
     return {"id": sc["id"], "fam": sc["fam"], "mg": mg, "ind": inds,
-            "raw": raw_json(sc["stream"]), "ev": events}
+            "raw": raw_json(sc["stream"], sc.get("readings")), "ev": events}
